@@ -432,7 +432,7 @@ fn main() {
     let corpus = cf::corpus::load(&ctx.verif_dir);
     let mut groups: BTreeMap<String, Vec<(String, Vec<u8>)>> = BTreeMap::new();
     for (path, bytes) in corpus { let g = path.split('/').next().unwrap_or("").to_string(); groups.entry(g).or_default().push((path, bytes)); }
-    let nc = if groups.is_empty() { 0 } else { ctx.tier.pick(40, 2_500) };
+    let nc = if groups.is_empty() { 0 } else { ctx.tier.pick(100, 5_000) };
     run_cases(&ctx, &replay, &mut rep, "corpus", nc, |rng, rep, case| {
         let job = corpus_job(rng, &groups, &scratch, case);
         let o = run_job(rep, &job, Wrong::No);
@@ -440,7 +440,7 @@ fn main() {
         account(rep, &job, &o);
     });
     if std::env::var("C07_TIMING").is_ok() { eprintln!("C07_TIMING corpus done {:.1}s", ctx.elapsed_s()); }
-    let n = ctx.tier.pick(2_000, 40_000);
+    let n = ctx.tier.pick(6_000, 120_000);
     let max_classes = ctx.tier.pick(10, 40);
     run_cases(&ctx, &replay, &mut rep, "generated", n, |rng, rep, case| {
         let job = generated_job(rng, if case % 8 == 7 { max_classes } else { 10.min(max_classes) }, &scratch, case);
